@@ -77,6 +77,9 @@ def run(ctx):
             cw = [s for s in subterms(pair[0][2]) if s.op == "call" and B.cname(s) == "BlsSignCrypt::compute_w"]
             ok = {"share", "pk", "u", "v", "w", "dst"} <= names and len(neg) == 1 and len(cw) == 1
         ctx.ob("E4.verify_share", g.key + "/equation", ok, "verify_share = %s (want 3 identity guards & pairing[(-compute_w(u,v,dst), share), (w, pk)])" % G.show_f(fm, 3)[:260], where=where(g))
+    from . import equations as EQ
+
+    EQ.check_pairing_equation(ctx, "E5.equation", P, "BlsSignCrypt::verify_share", {("cw", "share"): -1, ("w", "pk"): 1}, "e(-compute_w(u, v, dst), share) * e(w, pk)")
     # decryption share value/identifier (shared with C08)
     from .c08 import run as _  # noqa: F401  (module provides the share-construction rule below)
     from . import c08
